@@ -400,6 +400,8 @@ func scriptedBackend(obs *backendObs, script []action) http.Handler {
 				if f, ok := w.(http.Flusher); ok {
 					f.Flush()
 				}
+			case "readfault":
+				_, _ = io.Copy(io.Discard, r.Body)
 			case "closebody":
 				_ = r.Body.Close()
 			case "panic":
